@@ -248,6 +248,42 @@ CHECKS.update({
              'contract; three deviations recorded as known findings (deposit, nonce0, frontier-create).'),
 })
 
+CHECKS.update({
+    'C05': dict(
+        engine='evmapp',
+        technique='TLA+ specs AppLifecycle.tla (persistent vs volatile EVMApp state, Execute/Commit/Restart/Query; reference F(chain)) and PlusCal '
+                  'ParVerify.tla exhaustively model-checked by TLC; state-graph edge cover, simulated behaviours and counterexamples of pre-repair '
+                  'variants replayed on the real EVMApp (LevelDB, Stop/NewEVMApp/Start) with a relational oracle across replicas (restart '
+                  'placements, 1-16 verifier goroutines, forced Gate schedule, continuous vs catch-up)',
+        level=('model_checking',
+               'Bounded-exhaustive on the spec (<=3 blocks x <=2 txs, <=2 restarts; verifier 2-3 workers x 2-3 txs, every interleaving); the '
+               'implementation is bound by replay of every graph edge plus sampled behaviours, and every replica with the same committed chain '
+               'prefix must return byte-identical AppHash, ReceiptsHash, partition and Query answers.', 'DESIGN.md §4 C05'),
+        note='Hashes are compared between real replicas, not predicted by the model; Go-scheduler interleavings of the verifier are sampled on '
+             'the real code apart from the forced schedule; header-dependent contract code is compared only through NUMBER/TIMESTAMP.'),
+    'C09': dict(
+        engine='txexec',
+        technique='TLA+ TxExec.tla over TxSem.tla (17 tx classes, per-tx Begin/ExecTx(t,r)/Commit) exhaustively model-checked by TLC; edge cover, '
+                  'simulation, pre-repair counterexamples, forced verifier schedules and bounded byte-level mutants replayed through the real '
+                  'OnExecute/OnCommit with model-independent oracles (nonce ledger, at-most-once, partition, twin-run AppHash, receipts, no panic)',
+        level=('model_checking',
+               'Bounded-exhaustive on the spec (2 accounts, nonces 0..2, 3 blocks x 3 txs); the implementation is bound by replay with per-tx '
+               'classification and state comparison; totality over bytes = classes + bounded seeded mutations.', 'DESIGN.md §4 C09'),
+        note='0xfe precompile driven with a stub callback; EVM opcode semantics are C10; arbitrary byte strings only as classes + bounded mutants.'),
+    'C19': dict(
+        engine='txpool',
+        technique='TLA+ TxPool.tla (ethTxPool + txSortedMap + app nonce; commit path split into Update / SwapState / UpdateToState, evictor, '
+                  'flush) and Mempool.tla exhaustively model-checked by TLC; edge cover of both state graphs plus simulation replayed on the real '
+                  'ethTxPool with a real EVMApp behind it (interleavings forced through the OnCommit Gate) and on the real Mempool; properties '
+                  're-evaluated on the real pool independently of the model',
+        level=('model_checking',
+               'Bounded-exhaustive on the spec (1 account P=3; 2 accounts 1.47M states in thorough); the implementation is bound by replay of '
+               'every edge of the smallest graph plus sampled behaviours; Reap order, duplicates, re-offers, loss below capacity and bounds '
+               'are checked on the real pool.', 'DESIGN.md §4 C19'),
+        note='One accepted residual (known finding reoffer:resubmitted-after-commit); Go map-order nondeterminism at the limits is tolerated by '
+             'cutting the replay; eviction is tested with lifetime 0 on the real 1-minute ticker.'),
+})
+
 NOT_YET = 'not yet built: the specification for this property is planned in DESIGN.md §4 but no check is registered yet'
 NOT_APPLICABLE = {
     'C18': 'codec round-trip/robustness/injectivity are statements about pure functions over byte strings; there is no '
